@@ -3,6 +3,7 @@ extern crate iceoryx2_bb_loggers;
 mod c14;
 mod c15;
 mod c16;
+mod c19;
 
 fn main() {
     let args = vkit::Args::parse();
@@ -11,6 +12,7 @@ fn main() {
         "c14" => c14::run(&args),
         "c15" => c15::run(&args),
         "c16" => c16::run(&args),
+        "c19" => c19::run(&args),
         "warmup" => return,
         other => {
             eprintln!("unknown sub command {:?}", other);
